@@ -307,6 +307,27 @@ Theorem C16_plain_restore_replay_refused :
 Proof. exact m_restore_replay_refused. Qed.
 Print Assumptions C16_plain_restore_replay_refused.
 
+(** the list is judged as the caller handed it over, repeated keys included: a list in which a
+    key comes back at a lower version - or at the same version with other content - after an
+    earlier entry of the same list is refused whole (nothing of it reaches the local store);
+    [l1], [l2], [l3] are arbitrary *)
+Theorem C16_restore_repeated_key_refused :
+  forall (c : cloud) (l1 : list kvv) (k : key) (n : N) (x1 : value) (l2 : list kvv) (v : N) (x : value)
+         (l3 : list kvv),
+    v < n \/ (v = n /\ x <> x1) ->
+    let l := l1 ++ (k, (n, x1)) :: l2 ++ (k, (v, x)) :: l3 in
+    snd (c_unlogged c l) <> ROk /\ local (fst (c_unlogged c l)) = local c.
+Proof. exact c_restore_repeated_key_refused. Qed.
+Print Assumptions C16_restore_repeated_key_refused.
+
+Theorem C16_plain_restore_repeated_key_refused :
+  forall (s : store) (l1 : list kvv) (k : key) (n : N) (x1 : value) (l2 : list kvv) (v : N) (x : value)
+         (l3 : list kvv),
+    v < n \/ (v = n /\ x <> x1) ->
+    m_batch s (l1 ++ (k, (n, x1)) :: l2 ++ (k, (v, x)) :: l3) = (s, RErr).
+Proof. exact m_restore_repeated_key_refused. Qed.
+Print Assumptions C16_plain_restore_repeated_key_refused.
+
 (** the local store of a disk-backed cloud store never lowers the version of any key over any
     history with restarts ([cr_run]: a restart drops the open transaction, keeps the disk) *)
 Theorem C16_cloud_restart_local_version_never_lowered :
@@ -322,6 +343,14 @@ Example C16_nonvacuous_restore :
   local (cr_run Debug (repeat 7 16) ops) = [([97], (3, [])); ([98], (0, [120]))] /\
   snd (cr_step Debug (repeat 7 16) (cr_run Debug (repeat 7 16) ops) (Unlogged [([98], (0, [120])); ([97], (1, [120]))])) = OErr /\
   snd (cr_step Debug (repeat 7 16) (cr_run Debug (repeat 7 16) ops) (Unlogged [([97], (3, []))])) = OUnit.
+Proof. vm_compute. repeat split. Qed.
+(** ... and a list replaying the old record after the current one is refused, while the same
+    two records oldest first are accepted *)
+Example C16_nonvacuous_repeated_key :
+  snd (c_unlogged c_init [([97], (1, [120])); ([97], (0, [121]))]) = RErr /\
+  snd (c_unlogged c_init [([97], (1, [120])); ([97], (1, [121]))]) = RErr /\
+  c_unlogged c_init [([97], (0, [121])); ([97], (1, [120])); ([97], (1, [120]))] =
+    (mkcloud [([97], (1, [120]))] None false, ROk).
 Proof. vm_compute. repeat split. Qed.
 
 (** * Non-vacuity *)
